@@ -152,9 +152,9 @@ def struct_json(t):
         alias = "alias" in f.get("write_method", {})
         req = any(a["name"]["text"] == "requires" for a in cppgen.attr_list(f))
         ex = f.get("existence_condition", {})
-        exists_const = ex.get("type", {}).get("boolean", {}).get("value") is True
+        exists_const = "value" in ex.get("type", {}).get("boolean", {})
         fields.append({"name": nm, "own_view": virt and not alias, "validator": (not virt) and req,
-                       "constant": virt and not alias and exists_const and instdrv.is_static_expr(f["read_transform"])})
+                       "constant": virt and not alias and exists_const and instdrv.is_const_type(f["read_transform"])})
     return {"name": t["name"]["name"]["text"], "is_bits": t.get("addressable_unit") == 1,
             "params": [p["name"]["name"]["text"] for p in t.get("runtime_parameter", []) or []],
             "fields": fields,
